@@ -220,7 +220,7 @@ type c06Site struct {
 
 func genC06Site(t *rapid.T) c06Site {
 	return c06Site{KeySeed: rapid.Uint32().Draw(t, "key"), PeerSeed: rapid.Uint32().Draw(t, "peer"),
-		RClass: rapid.SampledFrom([]string{"dist-1", "dist+1", "small", "pow2", "max", "between-256-and-dist", "half", "reversed-dist"}).Draw(t, "rclass"),
+		RClass: rapid.SampledFrom([]string{"dist-1", "dist+1", "dist", "small", "pow2", "max", "between-256-and-dist", "half", "reversed-dist"}).Draw(t, "rclass"),
 		RParam: rapid.IntRange(0, 255).Draw(t, "rparam")}
 }
 
@@ -233,6 +233,8 @@ func radiusFor(class string, param int, dist *big.Int, x []byte) *big.Int {
 		r = new(big.Int).Sub(dist, one)
 	case "dist+1":
 		r = new(big.Int).Add(dist, one)
+	case "dist":
+		r = new(big.Int).Set(dist)
 	case "small":
 		r = big.NewInt(int64(param * 2))
 	case "pow2":
@@ -271,13 +273,16 @@ func runC06Site(p c06Site, c *stats.Case) error {
 	}
 	dist := xorDist(self[:], contentID)
 	r := radiusFor(p.RClass, p.RParam, dist, x)
-	if r.Cmp(dist) == 0 {
-		return nil // boundary is handled by the store half
-	}
 	classifyTriple(c, self, contentID, r)
 	ru, _ := uint256.FromBig(r)
 	st.SetRadius(ru)
 	want := r.Cmp(dist) > 0
+	if r.Cmp(dist) == 0 {
+		// at distance == radius the verdict itself is judged by the boundary check (against the store's admission);
+		// here the call sites must give the verdict of the node's in-range test, whatever it is: "this same rule"
+		want = portalwire.VerifInRange(self, ru, contentID)
+		c.NT("sites:distance==radius")
+	}
 
 	// site 1+2: offer filtering, both accept encodings (key is neither stored nor in flight)
 	for _, ver := range []uint8{0, 1} {
